@@ -219,7 +219,56 @@ def badaEnv (P : Bada.Params ℝ) : String → ℝ := fun k =>
   else if k = "aircraft_parameters.c_tdes_low" then P.cTdesLow else if k = "aircraft_parameters.c_tdes_high" then P.cTdesHigh
   else if k = "aircraft_parameters.h_p_des" then P.hPDes else 0
 
-macro "bada_env" : tactic => `(tactic| simp only [badaEnv, String.reduceEq, if_true, if_false])
+/-! the attribute environment evaluated at each key the translated source reads -/
+theorem badaEnv_c_fcr (P : Bada.Params ℝ) : badaEnv P "aircraft_parameters.c_fcr" = P.cFcr := by
+  simp only [badaEnv, String.reduceEq, if_true, if_false]
+theorem badaEnv_c_f1 (P : Bada.Params ℝ) : badaEnv P "aircraft_parameters.c_f1" = P.cF1 := by
+  simp only [badaEnv, String.reduceEq, if_true, if_false]
+theorem badaEnv_c_f2 (P : Bada.Params ℝ) : badaEnv P "aircraft_parameters.c_f2" = P.cF2 := by
+  simp only [badaEnv, String.reduceEq, if_true, if_false]
+theorem badaEnv_c_d0cr (P : Bada.Params ℝ) : badaEnv P "aircraft_parameters.c_d0cr" = P.cD0 := by
+  simp only [badaEnv, String.reduceEq, if_true, if_false]
+theorem badaEnv_c_d2cr (P : Bada.Params ℝ) : badaEnv P "aircraft_parameters.c_d2cr" = P.cD2 := by
+  simp only [badaEnv, String.reduceEq, if_true, if_false]
+theorem badaEnv_S_ref (P : Bada.Params ℝ) : badaEnv P "aircraft_parameters.S_ref" = P.sRef := by
+  simp only [badaEnv, String.reduceEq, if_true, if_false]
+theorem badaEnv_c_tc1 (P : Bada.Params ℝ) : badaEnv P "aircraft_parameters.c_tc1" = P.cTc1 := by
+  simp only [badaEnv, String.reduceEq, if_true, if_false]
+theorem badaEnv_c_tc2 (P : Bada.Params ℝ) : badaEnv P "aircraft_parameters.c_tc2" = P.cTc2 := by
+  simp only [badaEnv, String.reduceEq, if_true, if_false]
+theorem badaEnv_c_tc3 (P : Bada.Params ℝ) : badaEnv P "aircraft_parameters.c_tc3" = P.cTc3 := by
+  simp only [badaEnv, String.reduceEq, if_true, if_false]
+theorem badaEnv_c_tc4 (P : Bada.Params ℝ) : badaEnv P "aircraft_parameters.c_tc4" = P.cTc4 := by
+  simp only [badaEnv, String.reduceEq, if_true, if_false]
+theorem badaEnv_c_tc5 (P : Bada.Params ℝ) : badaEnv P "aircraft_parameters.c_tc5" = P.cTc5 := by
+  simp only [badaEnv, String.reduceEq, if_true, if_false]
+theorem badaEnv_c_tcr (P : Bada.Params ℝ) : badaEnv P "aircraft_parameters.c_tcr" = P.cTcr := by
+  simp only [badaEnv, String.reduceEq, if_true, if_false]
+theorem badaEnv_c_tdes_low (P : Bada.Params ℝ) : badaEnv P "aircraft_parameters.c_tdes_low" = P.cTdesLow := by
+  simp only [badaEnv, String.reduceEq, if_true, if_false]
+theorem badaEnv_c_tdes_high (P : Bada.Params ℝ) : badaEnv P "aircraft_parameters.c_tdes_high" = P.cTdesHigh := by
+  simp only [badaEnv, String.reduceEq, if_true, if_false]
+theorem badaEnv_h_p_des (P : Bada.Params ℝ) : badaEnv P "aircraft_parameters.h_p_des" = P.hPDes := by
+  simp only [badaEnv, String.reduceEq, if_true, if_false]
+
+/-- evaluates `badaEnv P "…"` -/
+macro "bada_env" : tactic => `(tactic| simp only [badaEnv_c_fcr, badaEnv_c_f1, badaEnv_c_f2, badaEnv_c_d0cr, badaEnv_c_d2cr, badaEnv_S_ref, badaEnv_c_tc1, badaEnv_c_tc2, badaEnv_c_tc3, badaEnv_c_tc4, badaEnv_c_tc5, badaEnv_c_tcr, badaEnv_c_tdes_low, badaEnv_c_tdes_high, badaEnv_h_p_des])
+
+/-- closes `translated BADA kernel = model` goals: the kernels are generated with every callee inlined (symbolic evaluator), so
+    both sides are unfolded down to arithmetic on the parameters and compared there; no lemma mentions a helper of the source,
+    which is what keeps these proofs valid when helpers are extracted, inlined or renamed -/
+macro "bada_finish" : tactic =>
+  `(tactic| first
+      | rfl
+      | (simp only [lit_real, smax_real, smin_real, Bool.false_eq_true, if_false, if_true]; first | rfl | (norm_num; done) | (norm_num; ring_nf; done) | (ring_nf; done))
+      | (simp only [lit_real, smax_real, smin_real, Bool.false_eq_true, if_false, if_true]; split_ifs <;> first | rfl | (norm_num; done) | (norm_num; ring_nf; done) | (ring_nf; done) | (exfalso; linarith)))
+
+macro "bada_close" : tactic =>
+  `(tactic| ((try simp only [Bada.thrust, Bada.sgr, Bada.sgrOf, Bada.fuelFlow, Bada.selectFuelFlow, Bada.teThrust, Bada.maxThrust, Bada.descentThrust, Bada.maxCruise, Bada.maxClimb, Bada.maxClimbIsa, Bada.tempFactor, Bada.descentHigh, Bada.descentLow, Bada.isaTemp, Bada.isaPressure, Bada.airDensity, Bada.liftCoeff, Bada.dragCoeff, Bada.dragForce, Bada.totalEnergyThrust, Bada.selectThrust, Bada.sfc, Bada.nominalFuelFlow, Bada.cruiseFuelFlow]) <;> (try bada_env) <;> bada_finish))
+
+/-- as `bada_close`, but the maximum climb thrust stays folded (callers rewrite it with an unfolded kernel lemma first) -/
+macro "bada_close_folded" : tactic =>
+  `(tactic| ((try simp only [Bada.thrust, Bada.sgr, Bada.sgrOf, Bada.fuelFlow, Bada.selectFuelFlow, Bada.teThrust, Bada.maxThrust, Bada.descentThrust, Bada.maxCruise, Bada.descentHigh, Bada.descentLow, Bada.isaTemp, Bada.isaPressure, Bada.airDensity, Bada.liftCoeff, Bada.dragCoeff, Bada.dragForce, Bada.totalEnergyThrust, Bada.selectThrust, Bada.sfc, Bada.nominalFuelFlow, Bada.cruiseFuelFlow]) <;> (try bada_env) <;> bada_finish))
 
 theorem bada_isa_temp (h : ℝ) : Kern.standard_atmosphere__temperature_at_altitude_isa_bada4 h = Bada.isaTemp h := by
   unfold Kern.standard_atmosphere__temperature_at_altitude_isa_bada4 Bada.isaTemp; kern_close
@@ -230,7 +279,6 @@ theorem bada_isa_pressure (h : ℝ) : Kern.standard_atmosphere__pressure_at_alti
 theorem bada_air_density (p t : ℝ) : Kern.standard_atmosphere__calculate_air_density p t = Bada.airDensity p t := by
   unfold Kern.standard_atmosphere__calculate_air_density Bada.airDensity; kern_close
 
-
 /-! engine models: one statement per concrete class of the source (`Bada3JetEngineModel`, …) -/
 
 theorem bada_max_climb_isa (P : Bada.Params ℝ) (h v : ℝ) :
@@ -238,37 +286,15 @@ theorem bada_max_climb_isa (P : Bada.Params ℝ) (h v : ℝ) :
     Kern.bada_turboprop_max_climb_isa (badaEnv P) h v = Bada.maxClimbIsa .turboprop P h v ∧
     Kern.bada_piston_max_climb_isa (badaEnv P) h v = Bada.maxClimbIsa .piston P h v := by
   refine ⟨?_, ?_, ?_⟩ <;>
-    (simp only [Kern.bada_jet_max_climb_isa, Kern.bada_turboprop_max_climb_isa, Kern.bada_piston_max_climb_isa,
-      Bada.maxClimbIsa] <;> (try bada_env) <;> (try kern_close))
-
-theorem bada_max_climb_isa_callee (P : Bada.Params ℝ) (h v : ℝ) :
-    Kern.Bada3JetEngineModel__calculate_max_climb_thrust_isa (badaEnv P) h v = Bada.maxClimbIsa .jet P h v ∧
-    Kern.Bada3TurbopropEngineModel__calculate_max_climb_thrust_isa (badaEnv P) h v = Bada.maxClimbIsa .turboprop P h v ∧
-    Kern.Bada3PistonEngineModel__calculate_max_climb_thrust_isa (badaEnv P) h v = Bada.maxClimbIsa .piston P h v := by
-  refine ⟨?_, ?_, ?_⟩ <;>
-    (simp only [Kern.Bada3JetEngineModel__calculate_max_climb_thrust_isa,
-      Kern.Bada3TurbopropEngineModel__calculate_max_climb_thrust_isa,
-      Kern.Bada3PistonEngineModel__calculate_max_climb_thrust_isa, Bada.maxClimbIsa] <;> (try bada_env) <;> (try kern_close))
+    (simp only [Kern.bada_jet_max_climb_isa, Kern.bada_turboprop_max_climb_isa, Kern.bada_piston_max_climb_isa] <;> bada_close)
 
 /-- eq. 3.7-4: the temperature-corrected maximum climb thrust -/
 theorem bada_max_climb (P : Bada.Params ℝ) (h v t : ℝ) :
     Kern.bada_jet_max_climb (badaEnv P) h v t = Bada.maxClimb .jet P h v t ∧
     Kern.bada_turboprop_max_climb (badaEnv P) h v t = Bada.maxClimb .turboprop P h v t ∧
     Kern.bada_piston_max_climb (badaEnv P) h v t = Bada.maxClimb .piston P h v t := by
-  obtain ⟨hj, ht, hp⟩ := bada_max_climb_isa_callee P h v
   refine ⟨?_, ?_, ?_⟩ <;>
-    (simp only [Kern.bada_jet_max_climb, Kern.bada_turboprop_max_climb, Kern.bada_piston_max_climb, Bada.maxClimb,
-      Bada.tempFactor, hj, ht, hp, bada_isa_temp] <;> (try bada_env) <;> (try kern_close))
-
-theorem bada_max_climb_callee (P : Bada.Params ℝ) (h v t : ℝ) :
-    Kern.Bada3JetEngineModel__calculate_max_climb_thrust (badaEnv P) h v t = Bada.maxClimb .jet P h v t ∧
-    Kern.Bada3TurbopropEngineModel__calculate_max_climb_thrust (badaEnv P) h v t = Bada.maxClimb .turboprop P h v t ∧
-    Kern.Bada3PistonEngineModel__calculate_max_climb_thrust (badaEnv P) h v t = Bada.maxClimb .piston P h v t := by
-  obtain ⟨hj, ht, hp⟩ := bada_max_climb_isa_callee P h v
-  refine ⟨?_, ?_, ?_⟩ <;>
-    (simp only [Kern.Bada3JetEngineModel__calculate_max_climb_thrust, Kern.Bada3TurbopropEngineModel__calculate_max_climb_thrust,
-      Kern.Bada3PistonEngineModel__calculate_max_climb_thrust, Bada.maxClimb, Bada.tempFactor, hj, ht, hp, bada_isa_temp]
-     <;> (try bada_env) <;> (try kern_close))
+    (simp only [Kern.bada_jet_max_climb, Kern.bada_turboprop_max_climb, Kern.bada_piston_max_climb] <;> bada_close)
 
 /-- eq. 3.7-8 and the descent thrusts (3.7-9, 3.7-10) -/
 theorem bada_cruise_descent (P : Bada.Params ℝ) (h v t : ℝ) :
@@ -281,44 +307,15 @@ theorem bada_cruise_descent (P : Bada.Params ℝ) (h v t : ℝ) :
     (Kern.bada_jet_descent_low (badaEnv P) h v t = Bada.descentLow .jet P h v t ∧
      Kern.bada_turboprop_descent_low (badaEnv P) h v t = Bada.descentLow .turboprop P h v t ∧
      Kern.bada_piston_descent_low (badaEnv P) h v t = Bada.descentLow .piston P h v t) := by
-  obtain ⟨hj, ht, hp⟩ := bada_max_climb_callee P h v t
   refine ⟨⟨?_, ?_, ?_⟩, ⟨?_, ?_, ?_⟩, ⟨?_, ?_, ?_⟩⟩ <;>
     (simp only [Kern.bada_jet_max_cruise, Kern.bada_turboprop_max_cruise, Kern.bada_piston_max_cruise,
       Kern.bada_jet_descent_high, Kern.bada_turboprop_descent_high, Kern.bada_piston_descent_high,
-      Kern.bada_jet_descent_low, Kern.bada_turboprop_descent_low, Kern.bada_piston_descent_low,
-      Bada.maxCruise, Bada.descentHigh, Bada.descentLow, hj, ht, hp] <;> (try bada_env) <;> (try kern_close))
-
-theorem bada_cruise_descent_callee (P : Bada.Params ℝ) (h v t : ℝ) :
-    (Kern.Bada3JetEngineModel__calculate_max_cruise_thrust (badaEnv P) h v t = Bada.maxCruise .jet P h v t ∧
-     Kern.Bada3TurbopropEngineModel__calculate_max_cruise_thrust (badaEnv P) h v t = Bada.maxCruise .turboprop P h v t ∧
-     Kern.Bada3PistonEngineModel__calculate_max_cruise_thrust (badaEnv P) h v t = Bada.maxCruise .piston P h v t) ∧
-    (Kern.Bada3JetEngineModel__calculate_descent_thrust_high (badaEnv P) h v t = Bada.descentHigh .jet P h v t ∧
-     Kern.Bada3TurbopropEngineModel__calculate_descent_thrust_high (badaEnv P) h v t = Bada.descentHigh .turboprop P h v t ∧
-     Kern.Bada3PistonEngineModel__calculate_descent_thrust_high (badaEnv P) h v t = Bada.descentHigh .piston P h v t) ∧
-    (Kern.Bada3JetEngineModel__calculate_descent_thrust_low (badaEnv P) h v t = Bada.descentLow .jet P h v t ∧
-     Kern.Bada3TurbopropEngineModel__calculate_descent_thrust_low (badaEnv P) h v t = Bada.descentLow .turboprop P h v t ∧
-     Kern.Bada3PistonEngineModel__calculate_descent_thrust_low (badaEnv P) h v t = Bada.descentLow .piston P h v t) := by
-  obtain ⟨hj, ht, hp⟩ := bada_max_climb_callee P h v t
-  refine ⟨⟨?_, ?_, ?_⟩, ⟨?_, ?_, ?_⟩, ⟨?_, ?_, ?_⟩⟩ <;>
-    (simp only [Kern.Bada3JetEngineModel__calculate_max_cruise_thrust, Kern.Bada3TurbopropEngineModel__calculate_max_cruise_thrust,
-      Kern.Bada3PistonEngineModel__calculate_max_cruise_thrust, Kern.Bada3JetEngineModel__calculate_descent_thrust_high,
-      Kern.Bada3TurbopropEngineModel__calculate_descent_thrust_high, Kern.Bada3PistonEngineModel__calculate_descent_thrust_high,
-      Kern.Bada3JetEngineModel__calculate_descent_thrust_low, Kern.Bada3TurbopropEngineModel__calculate_descent_thrust_low,
-      Kern.Bada3PistonEngineModel__calculate_descent_thrust_low,
-      Bada.maxCruise, Bada.descentHigh, Bada.descentLow, hj, ht, hp] <;> (try bada_env) <;> (try kern_close))
+      Kern.bada_jet_descent_low, Kern.bada_turboprop_descent_low, Kern.bada_piston_descent_low] <;> bada_close)
 
 /-- eqs 3.9-1, 3.9-2: thrust specific fuel consumption -/
 theorem bada_sfc (P : Bada.Params ℝ) (v : ℝ) :
     Kern.bada_jet_sfc (badaEnv P) v = Bada.sfc .jet P v ∧ Kern.bada_turboprop_sfc (badaEnv P) v = Bada.sfc .turboprop P v := by
-  refine ⟨?_, ?_⟩ <;>
-    (simp only [Kern.bada_jet_sfc, Kern.bada_turboprop_sfc, Bada.sfc] <;> (try bada_env) <;> (try kern_close))
-
-theorem bada_sfc_callee (P : Bada.Params ℝ) (v : ℝ) :
-    Kern.Bada3JetEngineModel__calculate_specific_fuel_consumption (badaEnv P) v = Bada.sfc .jet P v ∧
-    Kern.Bada3TurbopropEngineModel__calculate_specific_fuel_consumption (badaEnv P) v = Bada.sfc .turboprop P v := by
-  refine ⟨?_, ?_⟩ <;>
-    (simp only [Kern.Bada3JetEngineModel__calculate_specific_fuel_consumption,
-      Kern.Bada3TurbopropEngineModel__calculate_specific_fuel_consumption, Bada.sfc] <;> (try bada_env) <;> (try kern_close))
+  refine ⟨?_, ?_⟩ <;> (simp only [Kern.bada_jet_sfc, Kern.bada_turboprop_sfc] <;> bada_close)
 
 /-- eqs 3.9-3 … 3.9-7: nominal and cruise fuel flow, all three engine classes (piston: `C_f1 / 60` kg/s) -/
 theorem bada_fuel_flow (P : Bada.Params ℝ) (thr v : ℝ) :
@@ -328,25 +325,9 @@ theorem bada_fuel_flow (P : Bada.Params ℝ) (thr v : ℝ) :
     (Kern.bada_jet_cruise_fuel_flow (badaEnv P) thr v = Bada.cruiseFuelFlow .jet P thr v ∧
      Kern.bada_turboprop_cruise_fuel_flow (badaEnv P) thr v = Bada.cruiseFuelFlow .turboprop P thr v ∧
      Kern.bada_piston_cruise_fuel_flow (badaEnv P) thr v = Bada.cruiseFuelFlow .piston P thr v) := by
-  obtain ⟨hj, ht⟩ := bada_sfc_callee P v
   refine ⟨⟨?_, ?_, ?_⟩, ⟨?_, ?_, ?_⟩⟩ <;>
     (simp only [Kern.bada_jet_nominal_fuel_flow, Kern.bada_turboprop_nominal_fuel_flow, Kern.bada_piston_nominal_fuel_flow,
-      Kern.bada_jet_cruise_fuel_flow, Kern.bada_turboprop_cruise_fuel_flow, Kern.bada_piston_cruise_fuel_flow,
-      Bada.nominalFuelFlow, Bada.cruiseFuelFlow, hj, ht] <;> (try bada_env) <;> (try kern_close))
-
-theorem bada_fuel_flow_callee (P : Bada.Params ℝ) (thr v : ℝ) :
-    (Kern.Bada3JetEngineModel__calculate_nominal_fuel_flow (badaEnv P) thr v = Bada.nominalFuelFlow .jet P thr v ∧
-     Kern.Bada3TurbopropEngineModel__calculate_nominal_fuel_flow (badaEnv P) thr v = Bada.nominalFuelFlow .turboprop P thr v ∧
-     Kern.Bada3PistonEngineModel__calculate_nominal_fuel_flow (badaEnv P) thr v = Bada.nominalFuelFlow .piston P thr v) ∧
-    (Kern.Bada3JetEngineModel__calculate_cruise_fuel_flow (badaEnv P) thr v = Bada.cruiseFuelFlow .jet P thr v ∧
-     Kern.Bada3TurbopropEngineModel__calculate_cruise_fuel_flow (badaEnv P) thr v = Bada.cruiseFuelFlow .turboprop P thr v ∧
-     Kern.Bada3PistonEngineModel__calculate_cruise_fuel_flow (badaEnv P) thr v = Bada.cruiseFuelFlow .piston P thr v) := by
-  obtain ⟨hj, ht⟩ := bada_sfc_callee P v
-  refine ⟨⟨?_, ?_, ?_⟩, ⟨?_, ?_, ?_⟩⟩ <;>
-    (simp only [Kern.Bada3JetEngineModel__calculate_nominal_fuel_flow, Kern.Bada3TurbopropEngineModel__calculate_nominal_fuel_flow,
-      Kern.Bada3PistonEngineModel__calculate_nominal_fuel_flow, Kern.Bada3JetEngineModel__calculate_cruise_fuel_flow,
-      Kern.Bada3TurbopropEngineModel__calculate_cruise_fuel_flow, Kern.Bada3PistonEngineModel__calculate_cruise_fuel_flow,
-      Bada.nominalFuelFlow, Bada.cruiseFuelFlow, hj, ht] <;> (try bada_env) <;> (try kern_close))
+      Kern.bada_jet_cruise_fuel_flow, Kern.bada_turboprop_cruise_fuel_flow, Kern.bada_piston_cruise_fuel_flow] <;> bada_close)
 
 /-- eqs 3.6-1, 3.6-2, 3.6-5, 3.2-1 -/
 theorem bada_aero (P : Bada.Params ℝ) (m rho v cl cd drag rocd acc : ℝ) :
@@ -355,98 +336,83 @@ theorem bada_aero (P : Bada.Params ℝ) (m rho v cl cd drag rocd acc : ℝ) :
     Kern.bada_drag (badaEnv P) cd rho v = Bada.dragForce P cd rho v ∧
     Kern.bada_te_thrust drag m v rocd acc = Bada.totalEnergyThrust drag m v rocd acc := by
   refine ⟨?_, ?_, ?_, ?_⟩ <;>
-    (simp only [Kern.bada_cl, Kern.bada_cd, Kern.bada_drag, Kern.bada_te_thrust, Bada.liftCoeff, Bada.dragCoeff,
-      Bada.dragForce, Bada.totalEnergyThrust] <;> (try bada_env) <;> (try kern_close))
+    (simp only [Kern.bada_cl, Kern.bada_cd, Kern.bada_drag, Kern.bada_te_thrust] <;> bada_close)
 
+/-! `calculate_thrust` / `calculate_specific_ground_range`: the (inlined) maximum climb thrust is first folded back into the model's
+    `maxClimb` with the unfolded form of `bada_max_climb`, then the rest is compared after unfolding -/
 
-theorem bada_cl_callee (P : Bada.Params ℝ) (m rho v : ℝ) :
-    Kern.Bada3FuelBurnModel__calculate_cl__Bada3JetEngineModel (badaEnv P) m rho v = Bada.liftCoeff P m rho v ∧
-    Kern.Bada3FuelBurnModel__calculate_cl__Bada3TurbopropEngineModel (badaEnv P) m rho v = Bada.liftCoeff P m rho v ∧
-    Kern.Bada3FuelBurnModel__calculate_cl__Bada3PistonEngineModel (badaEnv P) m rho v = Bada.liftCoeff P m rho v := by
-  refine ⟨?_, ?_, ?_⟩ <;>
-    (simp only [Kern.Bada3FuelBurnModel__calculate_cl__Bada3JetEngineModel, Kern.Bada3FuelBurnModel__calculate_cl__Bada3TurbopropEngineModel, Kern.Bada3FuelBurnModel__calculate_cl__Bada3PistonEngineModel,
-      Bada.liftCoeff, Bada.dragCoeff, Bada.dragForce, Bada.totalEnergyThrust] <;> (try bada_env) <;> (try kern_close))
+theorem bada_thrust_jet (P : Bada.Params ℝ) (m T h v rocd acc gs : ℝ) (cr : Bool) :
+    Kern.bada_jet_thrust (badaEnv P) m T h v rocd acc cr = Bada.thrust .jet P m ⟨T, h, v, rocd, acc, gs, cr⟩ := by
+  have hmc := (bada_max_climb P h v T).1
+  simp only [Kern.bada_jet_max_climb, badaEnv_c_fcr, badaEnv_c_f1, badaEnv_c_f2, badaEnv_c_d0cr, badaEnv_c_d2cr, badaEnv_S_ref, badaEnv_c_tc1, badaEnv_c_tc2, badaEnv_c_tc3, badaEnv_c_tc4, badaEnv_c_tc5, badaEnv_c_tcr, badaEnv_c_tdes_low, badaEnv_c_tdes_high, badaEnv_h_p_des] at hmc
+  simp only [Kern.bada_jet_thrust, badaEnv_c_fcr, badaEnv_c_f1, badaEnv_c_f2, badaEnv_c_d0cr, badaEnv_c_d2cr, badaEnv_S_ref, badaEnv_c_tc1, badaEnv_c_tc2, badaEnv_c_tc3, badaEnv_c_tc4, badaEnv_c_tc5, badaEnv_c_tcr, badaEnv_c_tdes_low, badaEnv_c_tdes_high, badaEnv_h_p_des]
+  try simp only [hmc]
+  cases cr <;> bada_close_folded
 
-theorem bada_cd_callee (P : Bada.Params ℝ) (cl : ℝ) :
-    Kern.Bada3FuelBurnModel__calculate_cd__Bada3JetEngineModel (badaEnv P) cl = Bada.dragCoeff P cl ∧
-    Kern.Bada3FuelBurnModel__calculate_cd__Bada3TurbopropEngineModel (badaEnv P) cl = Bada.dragCoeff P cl ∧
-    Kern.Bada3FuelBurnModel__calculate_cd__Bada3PistonEngineModel (badaEnv P) cl = Bada.dragCoeff P cl := by
-  refine ⟨?_, ?_, ?_⟩ <;>
-    (simp only [Kern.Bada3FuelBurnModel__calculate_cd__Bada3JetEngineModel, Kern.Bada3FuelBurnModel__calculate_cd__Bada3TurbopropEngineModel, Kern.Bada3FuelBurnModel__calculate_cd__Bada3PistonEngineModel,
-      Bada.liftCoeff, Bada.dragCoeff, Bada.dragForce, Bada.totalEnergyThrust] <;> (try bada_env) <;> (try kern_close))
+theorem bada_sgr_jet (P : Bada.Params ℝ) (m T h v rocd acc gs : ℝ) (cr : Bool) :
+    Kern.bada_jet_sgr (badaEnv P) m T h v rocd acc cr gs = Bada.sgr .jet P m ⟨T, h, v, rocd, acc, gs, cr⟩ := by
+  have hmc := (bada_max_climb P h v T).1
+  simp only [Kern.bada_jet_max_climb, badaEnv_c_fcr, badaEnv_c_f1, badaEnv_c_f2, badaEnv_c_d0cr, badaEnv_c_d2cr, badaEnv_S_ref, badaEnv_c_tc1, badaEnv_c_tc2, badaEnv_c_tc3, badaEnv_c_tc4, badaEnv_c_tc5, badaEnv_c_tcr, badaEnv_c_tdes_low, badaEnv_c_tdes_high, badaEnv_h_p_des] at hmc
+  have hth := bada_thrust_jet P m T h v rocd acc gs cr
+  simp only [Kern.bada_jet_thrust, badaEnv_c_fcr, badaEnv_c_f1, badaEnv_c_f2, badaEnv_c_d0cr, badaEnv_c_d2cr, badaEnv_S_ref, badaEnv_c_tc1, badaEnv_c_tc2, badaEnv_c_tc3, badaEnv_c_tc4, badaEnv_c_tc5, badaEnv_c_tcr, badaEnv_c_tdes_low, badaEnv_c_tdes_high, badaEnv_h_p_des] at hth
+  try simp only [hmc] at hth
+  simp only [Kern.bada_jet_sgr, badaEnv_c_fcr, badaEnv_c_f1, badaEnv_c_f2, badaEnv_c_d0cr, badaEnv_c_d2cr, badaEnv_S_ref, badaEnv_c_tc1, badaEnv_c_tc2, badaEnv_c_tc3, badaEnv_c_tc4, badaEnv_c_tc5, badaEnv_c_tcr, badaEnv_c_tdes_low, badaEnv_c_tdes_high, badaEnv_h_p_des]
+  try simp only [hmc]
+  try simp only [hth]
+  cases cr <;> (simp only [Bada.sgr, Bada.sgrOf, Bada.fuelFlow, Bada.selectFuelFlow, Bada.nominalFuelFlow, Bada.cruiseFuelFlow, Bada.sfc] <;> (try bada_env) <;> bada_finish)
 
-theorem bada_drag_callee (P : Bada.Params ℝ) (cd rho v : ℝ) :
-    Kern.Bada3FuelBurnModel__calculate_drag__Bada3JetEngineModel (badaEnv P) cd rho v = Bada.dragForce P cd rho v ∧
-    Kern.Bada3FuelBurnModel__calculate_drag__Bada3TurbopropEngineModel (badaEnv P) cd rho v = Bada.dragForce P cd rho v ∧
-    Kern.Bada3FuelBurnModel__calculate_drag__Bada3PistonEngineModel (badaEnv P) cd rho v = Bada.dragForce P cd rho v := by
-  refine ⟨?_, ?_, ?_⟩ <;>
-    (simp only [Kern.Bada3FuelBurnModel__calculate_drag__Bada3JetEngineModel, Kern.Bada3FuelBurnModel__calculate_drag__Bada3TurbopropEngineModel, Kern.Bada3FuelBurnModel__calculate_drag__Bada3PistonEngineModel,
-      Bada.liftCoeff, Bada.dragCoeff, Bada.dragForce, Bada.totalEnergyThrust] <;> (try bada_env) <;> (try kern_close))
+theorem bada_thrust_turboprop (P : Bada.Params ℝ) (m T h v rocd acc gs : ℝ) (cr : Bool) :
+    Kern.bada_turboprop_thrust (badaEnv P) m T h v rocd acc cr = Bada.thrust .turboprop P m ⟨T, h, v, rocd, acc, gs, cr⟩ := by
+  have hmc := (bada_max_climb P h v T).2.1
+  simp only [Kern.bada_turboprop_max_climb, badaEnv_c_fcr, badaEnv_c_f1, badaEnv_c_f2, badaEnv_c_d0cr, badaEnv_c_d2cr, badaEnv_S_ref, badaEnv_c_tc1, badaEnv_c_tc2, badaEnv_c_tc3, badaEnv_c_tc4, badaEnv_c_tc5, badaEnv_c_tcr, badaEnv_c_tdes_low, badaEnv_c_tdes_high, badaEnv_h_p_des] at hmc
+  simp only [Kern.bada_turboprop_thrust, badaEnv_c_fcr, badaEnv_c_f1, badaEnv_c_f2, badaEnv_c_d0cr, badaEnv_c_d2cr, badaEnv_S_ref, badaEnv_c_tc1, badaEnv_c_tc2, badaEnv_c_tc3, badaEnv_c_tc4, badaEnv_c_tc5, badaEnv_c_tcr, badaEnv_c_tdes_low, badaEnv_c_tdes_high, badaEnv_h_p_des]
+  try simp only [hmc]
+  cases cr <;> bada_close_folded
 
-theorem bada_te_callee (_P : Bada.Params ℝ) (drag m v rocd acc : ℝ) :
-    Kern.Bada3FuelBurnModel__calculate_thrust_by_total_energy__Bada3JetEngineModel drag m v rocd acc = Bada.totalEnergyThrust drag m v rocd acc ∧
-    Kern.Bada3FuelBurnModel__calculate_thrust_by_total_energy__Bada3TurbopropEngineModel drag m v rocd acc = Bada.totalEnergyThrust drag m v rocd acc ∧
-    Kern.Bada3FuelBurnModel__calculate_thrust_by_total_energy__Bada3PistonEngineModel drag m v rocd acc = Bada.totalEnergyThrust drag m v rocd acc := by
-  refine ⟨?_, ?_, ?_⟩ <;>
-    (simp only [Kern.Bada3FuelBurnModel__calculate_thrust_by_total_energy__Bada3JetEngineModel, Kern.Bada3FuelBurnModel__calculate_thrust_by_total_energy__Bada3TurbopropEngineModel, Kern.Bada3FuelBurnModel__calculate_thrust_by_total_energy__Bada3PistonEngineModel,
-      Bada.liftCoeff, Bada.dragCoeff, Bada.dragForce, Bada.totalEnergyThrust] <;> (try bada_env) <;> (try kern_close))
+theorem bada_sgr_turboprop (P : Bada.Params ℝ) (m T h v rocd acc gs : ℝ) (cr : Bool) :
+    Kern.bada_turboprop_sgr (badaEnv P) m T h v rocd acc cr gs = Bada.sgr .turboprop P m ⟨T, h, v, rocd, acc, gs, cr⟩ := by
+  have hmc := (bada_max_climb P h v T).2.1
+  simp only [Kern.bada_turboprop_max_climb, badaEnv_c_fcr, badaEnv_c_f1, badaEnv_c_f2, badaEnv_c_d0cr, badaEnv_c_d2cr, badaEnv_S_ref, badaEnv_c_tc1, badaEnv_c_tc2, badaEnv_c_tc3, badaEnv_c_tc4, badaEnv_c_tc5, badaEnv_c_tcr, badaEnv_c_tdes_low, badaEnv_c_tdes_high, badaEnv_h_p_des] at hmc
+  have hth := bada_thrust_turboprop P m T h v rocd acc gs cr
+  simp only [Kern.bada_turboprop_thrust, badaEnv_c_fcr, badaEnv_c_f1, badaEnv_c_f2, badaEnv_c_d0cr, badaEnv_c_d2cr, badaEnv_S_ref, badaEnv_c_tc1, badaEnv_c_tc2, badaEnv_c_tc3, badaEnv_c_tc4, badaEnv_c_tc5, badaEnv_c_tcr, badaEnv_c_tdes_low, badaEnv_c_tdes_high, badaEnv_h_p_des] at hth
+  try simp only [hmc] at hth
+  simp only [Kern.bada_turboprop_sgr, badaEnv_c_fcr, badaEnv_c_f1, badaEnv_c_f2, badaEnv_c_d0cr, badaEnv_c_d2cr, badaEnv_S_ref, badaEnv_c_tc1, badaEnv_c_tc2, badaEnv_c_tc3, badaEnv_c_tc4, badaEnv_c_tc5, badaEnv_c_tcr, badaEnv_c_tdes_low, badaEnv_c_tdes_high, badaEnv_h_p_des]
+  try simp only [hmc]
+  try simp only [hth]
+  cases cr <;> (simp only [Bada.sgr, Bada.sgrOf, Bada.fuelFlow, Bada.selectFuelFlow, Bada.nominalFuelFlow, Bada.cruiseFuelFlow, Bada.sfc] <;> (try bada_env) <;> bada_finish)
 
-/-- the two `np.where` selections of `calculate_thrust` are `selectThrust` -/
-theorem select_thrust (te mx ds : ℝ) :
-    (if (if mx < te then mx else te) < 0 then ds else (if mx < te then mx else te)) = Bada.selectThrust te mx ds := by
-  simp only [Bada.selectThrust, lit_real]; norm_num
+theorem bada_thrust_piston (P : Bada.Params ℝ) (m T h v rocd acc gs : ℝ) (cr : Bool) :
+    Kern.bada_piston_thrust (badaEnv P) m T h v rocd acc cr = Bada.thrust .piston P m ⟨T, h, v, rocd, acc, gs, cr⟩ := by
+  have hmc := (bada_max_climb P h v T).2.2
+  simp only [Kern.bada_piston_max_climb, badaEnv_c_fcr, badaEnv_c_f1, badaEnv_c_f2, badaEnv_c_d0cr, badaEnv_c_d2cr, badaEnv_S_ref, badaEnv_c_tc1, badaEnv_c_tc2, badaEnv_c_tc3, badaEnv_c_tc4, badaEnv_c_tc5, badaEnv_c_tcr, badaEnv_c_tdes_low, badaEnv_c_tdes_high, badaEnv_h_p_des] at hmc
+  simp only [Kern.bada_piston_thrust, badaEnv_c_fcr, badaEnv_c_f1, badaEnv_c_f2, badaEnv_c_d0cr, badaEnv_c_d2cr, badaEnv_S_ref, badaEnv_c_tc1, badaEnv_c_tc2, badaEnv_c_tc3, badaEnv_c_tc4, badaEnv_c_tc5, badaEnv_c_tcr, badaEnv_c_tdes_low, badaEnv_c_tdes_high, badaEnv_h_p_des]
+  try simp only [hmc]
+  cases cr <;> bada_close_folded
+
+theorem bada_sgr_piston (P : Bada.Params ℝ) (m T h v rocd acc gs : ℝ) (cr : Bool) :
+    Kern.bada_piston_sgr (badaEnv P) m T h v rocd acc cr gs = Bada.sgr .piston P m ⟨T, h, v, rocd, acc, gs, cr⟩ := by
+  have hmc := (bada_max_climb P h v T).2.2
+  simp only [Kern.bada_piston_max_climb, badaEnv_c_fcr, badaEnv_c_f1, badaEnv_c_f2, badaEnv_c_d0cr, badaEnv_c_d2cr, badaEnv_S_ref, badaEnv_c_tc1, badaEnv_c_tc2, badaEnv_c_tc3, badaEnv_c_tc4, badaEnv_c_tc5, badaEnv_c_tcr, badaEnv_c_tdes_low, badaEnv_c_tdes_high, badaEnv_h_p_des] at hmc
+  have hth := bada_thrust_piston P m T h v rocd acc gs cr
+  simp only [Kern.bada_piston_thrust, badaEnv_c_fcr, badaEnv_c_f1, badaEnv_c_f2, badaEnv_c_d0cr, badaEnv_c_d2cr, badaEnv_S_ref, badaEnv_c_tc1, badaEnv_c_tc2, badaEnv_c_tc3, badaEnv_c_tc4, badaEnv_c_tc5, badaEnv_c_tcr, badaEnv_c_tdes_low, badaEnv_c_tdes_high, badaEnv_h_p_des] at hth
+  try simp only [hmc] at hth
+  simp only [Kern.bada_piston_sgr, badaEnv_c_fcr, badaEnv_c_f1, badaEnv_c_f2, badaEnv_c_d0cr, badaEnv_c_d2cr, badaEnv_S_ref, badaEnv_c_tc1, badaEnv_c_tc2, badaEnv_c_tc3, badaEnv_c_tc4, badaEnv_c_tc5, badaEnv_c_tcr, badaEnv_c_tdes_low, badaEnv_c_tdes_high, badaEnv_h_p_des]
+  try simp only [hmc]
+  try simp only [hth]
+  cases cr <;> (simp only [Bada.sgr, Bada.sgrOf, Bada.fuelFlow, Bada.selectFuelFlow, Bada.nominalFuelFlow, Bada.cruiseFuelFlow, Bada.sfc] <;> (try bada_env) <;> bada_finish)
 
 /-- `Bada3FuelBurnModel.calculate_thrust`, as the source text says it, is `Bada.thrust` for every engine class -/
 theorem bada_thrust (P : Bada.Params ℝ) (m T h v rocd acc gs : ℝ) (cr : Bool) :
     Kern.bada_jet_thrust (badaEnv P) m T h v rocd acc cr = Bada.thrust .jet P m ⟨T, h, v, rocd, acc, gs, cr⟩ ∧
     Kern.bada_turboprop_thrust (badaEnv P) m T h v rocd acc cr = Bada.thrust .turboprop P m ⟨T, h, v, rocd, acc, gs, cr⟩ ∧
-    Kern.bada_piston_thrust (badaEnv P) m T h v rocd acc cr = Bada.thrust .piston P m ⟨T, h, v, rocd, acc, gs, cr⟩ := by
-  obtain ⟨⟨c1, c2, c3⟩, ⟨dh1, dh2, dh3⟩, ⟨dl1, dl2, dl3⟩⟩ := bada_cruise_descent_callee P h v T
-  obtain ⟨m1, m2, m3⟩ := bada_max_climb_callee P h v T
-  refine ⟨?_, ?_, ?_⟩ <;>
-  · simp only [Kern.bada_jet_thrust, Kern.bada_turboprop_thrust, Kern.bada_piston_thrust, Bada.thrust, Bada.teThrust,
-      Bada.maxThrust, Bada.descentThrust, bada_isa_pressure, bada_air_density,
-      (bada_cl_callee P _ _ _).1, (bada_cl_callee P _ _ _).2.1, (bada_cl_callee P _ _ _).2.2,
-      (bada_cd_callee P _).1, (bada_cd_callee P _).2.1, (bada_cd_callee P _).2.2,
-      (bada_drag_callee P _ _ _).1, (bada_drag_callee P _ _ _).2.1, (bada_drag_callee P _ _ _).2.2,
-      (bada_te_callee P _ _ _ _ _).1, (bada_te_callee P _ _ _ _ _).2.1, (bada_te_callee P _ _ _ _ _).2.2,
-      c1, c2, c3, dh1, dh2, dh3, dl1, dl2, dl3, m1, m2, m3, ← select_thrust]
-    bada_env
-    simp only [lit_real]; norm_num
-
-theorem bada_thrust_callee (P : Bada.Params ℝ) (m T h v rocd acc gs : ℝ) (cr : Bool) :
-    Kern.Bada3FuelBurnModel__calculate_thrust__Bada3JetEngineModel (badaEnv P) m T h v rocd acc cr
-      = Bada.thrust .jet P m ⟨T, h, v, rocd, acc, gs, cr⟩ ∧
-    Kern.Bada3FuelBurnModel__calculate_thrust__Bada3TurbopropEngineModel (badaEnv P) m T h v rocd acc cr
-      = Bada.thrust .turboprop P m ⟨T, h, v, rocd, acc, gs, cr⟩ ∧
-    Kern.Bada3FuelBurnModel__calculate_thrust__Bada3PistonEngineModel (badaEnv P) m T h v rocd acc cr
-      = Bada.thrust .piston P m ⟨T, h, v, rocd, acc, gs, cr⟩ := by
-  obtain ⟨⟨c1, c2, c3⟩, ⟨dh1, dh2, dh3⟩, ⟨dl1, dl2, dl3⟩⟩ := bada_cruise_descent_callee P h v T
-  obtain ⟨m1, m2, m3⟩ := bada_max_climb_callee P h v T
-  refine ⟨?_, ?_, ?_⟩ <;>
-  · simp only [Kern.Bada3FuelBurnModel__calculate_thrust__Bada3JetEngineModel,
-      Kern.Bada3FuelBurnModel__calculate_thrust__Bada3TurbopropEngineModel,
-      Kern.Bada3FuelBurnModel__calculate_thrust__Bada3PistonEngineModel, Bada.thrust, Bada.teThrust,
-      Bada.maxThrust, Bada.descentThrust, bada_isa_pressure, bada_air_density,
-      (bada_cl_callee P _ _ _).1, (bada_cl_callee P _ _ _).2.1, (bada_cl_callee P _ _ _).2.2,
-      (bada_cd_callee P _).1, (bada_cd_callee P _).2.1, (bada_cd_callee P _).2.2,
-      (bada_drag_callee P _ _ _).1, (bada_drag_callee P _ _ _).2.1, (bada_drag_callee P _ _ _).2.2,
-      (bada_te_callee P _ _ _ _ _).1, (bada_te_callee P _ _ _ _ _).2.1, (bada_te_callee P _ _ _ _ _).2.2,
-      c1, c2, c3, dh1, dh2, dh3, dl1, dl2, dl3, m1, m2, m3, ← select_thrust]
-    bada_env
-    simp only [lit_real]; norm_num
+    Kern.bada_piston_thrust (badaEnv P) m T h v rocd acc cr = Bada.thrust .piston P m ⟨T, h, v, rocd, acc, gs, cr⟩ :=
+  ⟨bada_thrust_jet P m T h v rocd acc gs cr, bada_thrust_turboprop P m T h v rocd acc gs cr, bada_thrust_piston P m T h v rocd acc gs cr⟩
 
 /-- `calculate_specific_ground_range` (zero-flow guard included) is `Bada.sgr` -/
 theorem bada_sgr (P : Bada.Params ℝ) (m T h v rocd acc gs : ℝ) (cr : Bool) :
     Kern.bada_jet_sgr (badaEnv P) m T h v rocd acc cr gs = Bada.sgr .jet P m ⟨T, h, v, rocd, acc, gs, cr⟩ ∧
     Kern.bada_turboprop_sgr (badaEnv P) m T h v rocd acc cr gs = Bada.sgr .turboprop P m ⟨T, h, v, rocd, acc, gs, cr⟩ ∧
-    Kern.bada_piston_sgr (badaEnv P) m T h v rocd acc cr gs = Bada.sgr .piston P m ⟨T, h, v, rocd, acc, gs, cr⟩ := by
-  obtain ⟨t1, t2, t3⟩ := bada_thrust_callee P m T h v rocd acc gs cr
-  refine ⟨?_, ?_, ?_⟩ <;>
-  · simp only [Kern.bada_jet_sgr, Kern.bada_turboprop_sgr, Kern.bada_piston_sgr, Bada.sgr, Bada.sgrOf, Bada.fuelFlow,
-      Bada.selectFuelFlow, t1, t2, t3,
-      (bada_fuel_flow_callee P _ _).1.1, (bada_fuel_flow_callee P _ _).1.2.1, (bada_fuel_flow_callee P _ _).1.2.2,
-      (bada_fuel_flow_callee P _ _).2.1, (bada_fuel_flow_callee P _ _).2.2.1, (bada_fuel_flow_callee P _ _).2.2.2, lit_real]
-      <;> (try norm_num)
+    Kern.bada_piston_sgr (badaEnv P) m T h v rocd acc cr gs = Bada.sgr .piston P m ⟨T, h, v, rocd, acc, gs, cr⟩ :=
+  ⟨bada_sgr_jet P m T h v rocd acc gs cr, bada_sgr_turboprop P m T h v rocd acc gs cr, bada_sgr_piston P m T h v rocd acc gs cr⟩
 
 end KernelBridge
